@@ -133,6 +133,93 @@ Definition parse_content_range (v : bytes) : option (N * N * N) :=
       end
   end.
 
+(* ---- reading a multipart/byteranges body back (independent of the model's renderer): the parts as
+   (a, b, L, bytes) from each part's own Content-Range line ---- *)
+Definition CRLF_ : bytes := [13; 10].
+(* one header line: up to CRLF *)
+Fixpoint take_line (fuel : nat) (s : bytes) : option (bytes * bytes) :=
+  match fuel with
+  | O => None
+  | S f =>
+      match s with
+      | 13 :: 10 :: t => Some ([], t)
+      | c :: t => match take_line f t with Some (l, r) => Some (c :: l, r) | None => None end
+      | [] => None
+      end
+  end.
+(* header lines up to the blank line; returns the Content-Range value if any *)
+Fixpoint part_headers (fuel : nat) (s : bytes) (cr : option bytes) : option (option bytes * bytes) :=
+  match fuel with
+  | O => None
+  | S f =>
+      match take_line (length s) s with
+      | None => None
+      | Some ([], rest) => Some (cr, rest)
+      | Some (line, rest) =>
+          let cr' := match strip_prefix (bs "Content-Range: ") line with Some v => Some v | None => cr end in
+          part_headers f rest cr'
+      end
+  end.
+Fixpoint parse_parts (fuel : nat) (boundary : bytes) (s : bytes) : option (list (N * N * N * bytes)) :=
+  match fuel with
+  | O => None
+  | S f =>
+      match strip_prefix (CRLF_ ++ bs "--" ++ boundary) s with
+      | None => None
+      | Some r =>
+          match strip_prefix (bs "--" ++ CRLF_) r with
+          | Some [] => Some []
+          | Some _ => None
+          | None =>
+              match strip_prefix CRLF_ r with
+              | None => None
+              | Some r1 =>
+                  match part_headers (length r1) r1 None with
+                  | Some (Some crv, body) =>
+                      match parse_content_range crv with
+                      | Some (a, b, l) =>
+                          let n := N.to_nat (b + 1 - a) in
+                          if (a <=? b) && (n <=? length body)%nat then
+                            match parse_parts f boundary (skipn n body) with
+                            | Some ps => Some ((a, b, l, firstn n body) :: ps)
+                            | None => None
+                            end
+                          else None
+                      | None => None
+                      end
+                  | _ => None
+                  end
+              end
+          end
+      end
+  end.
+Definition boundary_of (ct : bytes) : option bytes :=
+  match strip_prefix (bs "multipart/byteranges; boundary=") ct with Some b => Some b | None => None end.
+
+(* C02 for multipart bodies: every part carries exactly the entity bytes its own Content-Range line
+   names, within the entity, and those are the ranges that were read, in that order *)
+Definition spec_c02_multipart (i : sinput) (o : sobs) : list val :=
+  let L := e_len (i_ent i) in
+  let (pre, term) := until_terminal (o_polls o) in
+  match term, hdr1 H_CONTENT_TYPE (o_hdrs o) with
+  | Some OEnd, Some ct =>
+      if honest_all (i_streams i) (o_calls o) && (lenN (all_data pre) <=? 1048576) then
+        match boundary_of ct with
+        | None => []
+        | Some bd =>
+            match parse_parts (S (length (o_calls o) + 2)) bd (all_data pre) with
+            | None => [clause "C02" "multipart-body-does-not-parse-into-parts-with-content-range"]
+            | Some ps =>
+                check (forallb (fun p => match p with (a, b, l, d) => (b <? l) && (l =? L) && beq_bytes d (content_range a (b + 1)) end) ps)
+                      "C02" "multipart-part-carries-the-bytes-its-content-range-names"
+                ++ check (calls_eqb (o_calls o) (map (fun p => match p with (a, b, _, _) => (a, b + 1) end) ps))
+                         "C02" "multipart-reads-exactly-the-ranges-its-parts-name"
+            end
+        end
+      else []
+  | _, _ => []
+  end.
+
 Definition spec_c02 (i : sinput) (o : sobs) : list val :=
   if negb (is_get i) then [] else
   let L := e_len (i_ent i) in
@@ -159,7 +246,7 @@ Definition spec_c02 (i : sinput) (o : sobs) : list val :=
                   check (beq_bytes (all_data pre) (content_range a (b + 1))) "C02" "206-body-is-range" else [])
         end
     end
-  else if multipart then []    (* C06 covers multipart bodies *)
+  else if multipart then spec_c02_multipart i o    (* the wire format as a whole is C06's *)
   else check (match o_calls o with [] => true | _ => false end) "C02" "no-entity-bytes-on-other-statuses".
 
 (* ---- C03: Range resolution ---- *)
@@ -489,11 +576,6 @@ Fixpoint after_terminal_ok (p : list (ores * option N * bool)) (terminated : boo
          too-long error) may still be Pending or hand over an empty chunk *)
       (if terminated then (is_end r || is_err r || match r with OPending => true | OData [] => true | _ => false end) else true)
       && after_terminal_ok t (terminated || is_end r || is_err r)
-  end.
-Definition fused_stream (s : list ev) : bool :=
-  match rev s with
-  | [] => true
-  | _ :: before => negb (existsb ev_is_err before)
   end.
 Definition spec_c20 (i : sinput) (o : sobs) : list val :=
   if forallb fused_stream (i_streams i) then
